@@ -4,6 +4,7 @@
    - the dialect table (which SQL function a level emits, what is registered under that name,
      and whether it is a similarity or a distance) and its checker. *)
 From Coq Require Import String Bool ZArith QArith Qabs List.
+From Splinkv Require Import Base.TV Model.SqlExpr.
 Import ListNotations.
 Local Open Scope Q_scope.
 
@@ -47,3 +48,37 @@ Definition dialect_table_ok (t : list (string * list fentry)) : bool :=
   forallb (fun de => forallb entry_ok (snd de)) t.
 Definition bad_entries (t : list (string * list fentry)) : list (string * string) :=
   flat_map (fun de => map (fun e => (fst de, f_role e)) (filter (fun e => negb (entry_ok e)) (snd de))) t.
+
+(* ---- SQL-level cross-dialect comparison: the conditions two dialects emit for one level creator must be the same
+   expression after `strip`, up to a table of function-name synonyms (dialect name -> canonical name) ---- *)
+Local Open Scope string_scope.
+Fixpoint canon (syn : list (string * string)) (f : string) : string :=
+  match syn with
+  | [] => f
+  | (a, b) :: t => if String.eqb f a then b else canon t f
+  end.
+Fixpoint rename (syn : list (string * string)) (e : expr) : expr :=
+  match e with
+  | ECol s c => ECol s c
+  | ELit v => ELit v
+  | ECmp op a b => ECmp op (rename syn a) (rename syn b)
+  | EAnd a b => EAnd (rename syn a) (rename syn b)
+  | EOr a b => EOr (rename syn a) (rename syn b)
+  | ENot a => ENot (rename syn a)
+  | EIsNull a => EIsNull (rename syn a)
+  | EAbs a => EAbs (rename syn a)
+  | EArith op a b => EArith op (rename syn a) (rename syn b)
+  | ECase ws d => ECase (map (fun cv => match cv with (c, v) => (rename syn c, rename syn v) end) ws) (rename syn d)
+  | EFn f args => EFn (canon syn f) (map (rename syn) args)
+  | ECast a ty => ECast (rename syn a) ty
+  | EParen a => EParen (rename syn a)
+  | EPairwise m f a b => EPairwise m (canon syn f) (rename syn a) (rename syn b)
+  end.
+Definition same_modulo (syn : list (string * string)) (e1 e2 : expr) : bool :=
+  expr_eqb (rename syn (strip e1)) (rename syn (strip e2)).
+
+(* SQLite / Spark names -> the DuckDB name of the same function *)
+Definition synonyms : list (string * string) :=
+  [ ("jaro_sim", "jaro_similarity"); ("jaro_winkler", "jaro_winkler_similarity");
+    ("size", "array_length"); ("array_intersect", "list_intersect");
+    ("unix_timestamp", "epoch") ].
